@@ -343,7 +343,15 @@ def threadcount(ctx):
     _expect(ctx, "R37.thread-count", c, ["ctl_warm"], ["threadcount_good", "threadcount_caller"])
 
 
-ALL = {"threadcount": threadcount, "sizekind": sizekind, "lenext": lenext, "xxh": xxh, "signedoff": signedoff, "reqalloc": reqalloc, "fieldfit": fieldfit, "stalefield": stalefield, "hidden": hidden, "region_args": region_args, "widen": widen, "progress": progress, "lazyinit": lazyinit, "lanes": lanes, "atomic": atomic, "feasible": feasible, "endian": endian, "units": units, "alloc": alloc, "status": status, "ownership": ownership, "cursor": cursor, "arrays": arrays,
+def varint(ctx):
+    from .rules import varint as vr
+    c = _sub()
+    nw, nr = vr.check(c, files=("src/controls.c",))
+    ctx.control("R38.varint finds the control writers and readers", (nw, nr) == (2, 2), "%d writers, %d readers" % (nw, nr))
+    _expect(ctx, "R38.varint", c, ["ctl_write_varint_bad", "ctl_read_varint_bad"], ["ctl_write_varint_good", "ctl_read_varint_good"])
+
+
+ALL = {"varint": varint, "threadcount": threadcount, "sizekind": sizekind, "lenext": lenext, "xxh": xxh, "signedoff": signedoff, "reqalloc": reqalloc, "fieldfit": fieldfit, "stalefield": stalefield, "hidden": hidden, "region_args": region_args, "widen": widen, "progress": progress, "lazyinit": lazyinit, "lanes": lanes, "atomic": atomic, "feasible": feasible, "endian": endian, "units": units, "alloc": alloc, "status": status, "ownership": ownership, "cursor": cursor, "arrays": arrays,
        "recursion": recursion, "narrowing": narrowing, "skeleton": skeleton, "must_pass": must_pass}
 
 
